@@ -832,11 +832,14 @@ class FunctionBuilder:
                       'dict': getattr(func, '__dict__', {})}
 
         kwargs.update(cls._argspec_to_dict(func))
+        func_doc = kwargs['doc']
 
         if inspect.iscoroutinefunction(func):
             kwargs['is_async'] = True
 
-        return cls(**kwargs)
+        ret = cls(**kwargs)
+        ret.doc = func_doc  # no docstring stays None, not ''
+        return ret
 
     def get_func(self, execdict=None, add_source=True, with_dict=True):
         """Compile and return a new function based on the current values of
